@@ -3,10 +3,17 @@
 //!  (a) the property itself (`Spec`: who still refers to what), and
 //!  (b) the Lean model run on the same history (`c11 run …` of rotov-driver).
 //!
+//! Handles may be turned into `impl Fn` closures (`into_func`); scripts compiled
+//! with the `ud` flag make `main`'s result depend on every kind of data the
+//! compiled code refers to (string literals, f-string pieces, list literals,
+//! script constants of String / List type); after every step the heap is
+//! scribbled over so that freed-but-still-referenced bytes change.
+//!
 //! usage: c11 run <seed> <quick|thorough>
 //!        c11 replay '<json {"history": "b:0 rc:0 …"}>'
 //!        c11 worker <random|exh|one|vg> …      (crash-isolated children)
-use roto::{FileTree, NoCtx, Package, Runtime, TypedFunc, Val, library};
+use roto::{Context, Ctx, FileTree, List, NoCtx, Package, RotoString, Runtime, TypedFunc, Val, library};
+use std::net::IpAddr;
 use rotov_harness::driver::Driver;
 use rotov_harness::worker::{Ended, run_batches, run_worker_keep_stdout};
 use rotov_harness::{Prng, Report};
@@ -64,20 +71,66 @@ enum Op {
     Build(u32),
     RegConst(u32),
     RegClos(u32),
-    Compile { r: u32, k: u32, n: u32, uc: bool, uf: bool },
+    Compile { r: u32, k: u32, n: u32, uc: bool, uf: bool, ud: bool },
     Get(u32),
+    /// `Package::get_tests`: the `TestCase` of the script's one test (wraps a handle; appended like `Get`)
+    GetTest(u32),
     CloneH(usize),
+    /// `TypedFunc::into_func`: handle i becomes an `impl Fn() -> u32` closure (same position)
+    IntoFunc(usize),
     Call(usize),
     DropH(usize, bool),
     DropP(u32, bool),
     DropR(u32, bool),
 }
 
+// ---- data the compiled code refers to (flag `ud`)
+
+/// checksum of a string's bytes (position-sensitive), what the host function `ssum` computes
+fn ssum_of(s: &str) -> u32 {
+    s.bytes().enumerate().fold(7u32, |a, (i, b)| a.wrapping_mul(31).wrapping_add(b as u32 ^ (i as u32 & 0xff))) % 100_000
+}
+fn lsum_of(l: &[u32]) -> u32 {
+    l.iter().enumerate().fold(3u32, |a, (i, x)| a.wrapping_mul(17).wrapping_add(*x ^ i as u32)) % 100_000
+}
+fn lit_plain(k: u32) -> String { format!("literal of version {k}: 0123456789 abcdefghijklmnopqrstuvwxyz ABCDEFGHIJKLMNOPQRSTUVWXYZ") }
+fn lit_short(k: u32) -> String { format!("v{k}") }
+fn lit_const_a(k: u32) -> String { format!("constant string of version {k} / ") }
+fn lit_const_b() -> String { "the quick brown fox jumps over the lazy dog".into() }
+fn lit_f_a(k: u32) -> String { format!("f-string of version {k} starts here <") }
+fn lit_f_b() -> String { "> and has a long tail that is a literal piece too".into() }
+fn list_lit(k: u32) -> Vec<u32> { vec![3, 1, 4, 1, 5, 9, 2, 6, 5, 3, 5, k, 1000 + k] }
+fn list_const(k: u32) -> Vec<u32> { vec![2, 7, 1, 8, 2, 8, k] }
+/// IP address literals are emitted as raw initialiser bytes (`Initialize`)
+fn ip_lits(k: u32) -> [String; 2] { [format!("10.{}.3.4", k % 250), format!("2001:db8:85a3::{:x}", 0x1000 + k)] }
+fn ipsum_of(a: &IpAddr) -> u32 {
+    let bytes: Vec<u8> = match a {
+        IpAddr::V4(x) => x.octets().to_vec(),
+        IpAddr::V6(x) => x.octets().to_vec(),
+    };
+    bytes.iter().enumerate().fold(11u32, |a, (i, b)| a.wrapping_mul(13).wrapping_add(*b as u32 ^ i as u32)) % 100_000
+}
+/// what the data part of `main` adds up to
+/// (the List[Tk]-typed script constant's tracked element counts as script constant #n)
+fn data_value(k: u32) -> u32 {
+    let ss = format!("{}{}", lit_const_a(k), lit_const_b());
+    ssum_of(&lit_plain(k))
+        + ssum_of(&lit_short(k))
+        + ssum_of(&ss)
+        + ssum_of(&format!("{}{}{}", lit_f_a(k), ss, lit_f_b()))
+        + lsum_of(&list_lit(k))
+        + lsum_of(&list_const(k))
+        + ip_lits(k).iter().map(|a| ipsum_of(&a.parse().unwrap())).sum::<u32>()
+}
+
 /// the value `main()` of that compilation is meant to return
-fn value_of(r: u32, k: u32, n: u32, uc: bool, uf: bool) -> u32 {
+fn value_of(r: u32, k: u32, n: u32, uc: bool, uf: bool, ud: bool) -> u32 {
     let mut v = 1000 * k;
     for c in 0..n {
         v += val_s(k, c);
+    }
+    if ud {
+        v += data_value(k) + val_s(k, n);
     }
     if uc {
         v += val_r(r);
@@ -94,14 +147,18 @@ impl Op {
             Op::Build(r) => format!("b:{r}"),
             Op::RegConst(r) => format!("rc:{r}"),
             Op::RegClos(r) => format!("rf:{r}"),
-            Op::Compile { r, k, n, uc, uf } => format!(
-                "c:{r}:{k}:{n}:{}:{}:{}",
+            Op::Compile { r, k, n, uc, uf, ud } => format!(
+                "c:{r}:{k}:{}:{}:{}:{}:{}",
+                *n + *ud as u32,
                 *uc as u8,
                 *uf as u8,
-                value_of(*r, *k, *n, *uc, *uf)
+                *ud as u8,
+                value_of(*r, *k, *n, *uc, *uf, *ud)
             ),
             Op::Get(k) => format!("g:{k}"),
+            Op::GetTest(k) => format!("gt:{k}"),
             Op::CloneH(i) => format!("ch:{i}"),
+            Op::IntoFunc(i) => format!("if:{i}"),
             Op::Call(i) => format!("x:{i}"),
             Op::DropH(i, _) => format!("dh:{i}"),
             Op::DropP(k, _) => format!("dp:{k}"),
@@ -126,8 +183,11 @@ impl Op {
             ("b", 2) => Op::Build(n(1)?),
             ("rc", 2) => Op::RegConst(n(1)?),
             ("rf", 2) => Op::RegClos(n(1)?),
-            ("c", 6) | ("c", 7) => Op::Compile { r: n(1)?, k: n(2)?, n: n(3)?, uc: n(4)? == 1, uf: n(5)? == 1 },
+            ("c", 6) | ("c", 7) => Op::Compile { r: n(1)?, k: n(2)?, n: n(3)?, uc: n(4)? == 1, uf: n(5)? == 1, ud: false },
+            ("c", 8) => Op::Compile { r: n(1)?, k: n(2)?, n: n(3)?.checked_sub(n(6)?)?, uc: n(4)? == 1, uf: n(5)? == 1, ud: n(6)? == 1 },
+            ("if", 2) => Op::IntoFunc(n(1)? as usize),
             ("g", 2) => Op::Get(n(1)?),
+            ("gt", 2) => Op::GetTest(n(1)?),
             ("ch", 2) => Op::CloneH(n(1)? as usize),
             ("x", 2) => Op::Call(n(1)? as usize),
             ("dh", 2) => Op::DropH(n(1)? as usize, t),
@@ -143,7 +203,9 @@ impl Op {
             Op::RegClos(_) => "reg-closure",
             Op::Compile { .. } => "compile",
             Op::Get(_) => "get",
+            Op::GetTest(_) => "get-test",
             Op::CloneH(_) => "clone",
+            Op::IntoFunc(_) => "into-func",
             Op::Call(_) => "call",
             Op::DropH(_, false) => "drop-handle",
             Op::DropH(_, true) => "drop-handle@thread",
@@ -170,6 +232,7 @@ struct Info {
     n: u32,
     uc: bool,
     uf: bool,
+    ud: bool,
     value: u32,
 }
 
@@ -186,6 +249,8 @@ struct Spec {
     compiled: BTreeMap<u32, Info>,
     pkgs: Vec<u32>,
     hs: Vec<u32>,
+    /// parallel to `hs`: 0 = handle, 1 = closure made by into_func, 2 = TestCase (1, 2: cannot be cloned or converted)
+    kind: Vec<u8>,
 }
 
 impl Spec {
@@ -200,8 +265,9 @@ impl Spec {
                     && (!uc || self.has_const.contains(r))
                     && (!uf || self.has_clos.contains(r))
             }
-            Op::Get(k) | Op::DropP(k, _) => self.pkgs.contains(k),
-            Op::CloneH(i) | Op::Call(i) | Op::DropH(i, _) => *i < self.hs.len(),
+            Op::Get(k) | Op::GetTest(k) | Op::DropP(k, _) => self.pkgs.contains(k),
+            Op::Call(i) | Op::DropH(i, _) => *i < self.hs.len(),
+            Op::CloneH(i) | Op::IntoFunc(i) => *i < self.hs.len() && self.kind[*i] == 0,
             Op::DropR(r, _) => self.rts.contains(r),
         }
     }
@@ -219,15 +285,27 @@ impl Spec {
                 self.has_clos.insert(*r);
                 self.clos_ever.insert(*r);
             }
-            Op::Compile { r, k, n, uc, uf } => {
-                self.compiled.insert(*k, Info { r: *r, n: *n, uc: *uc, uf: *uf, value: value_of(*r, *k, *n, *uc, *uf) });
+            Op::Compile { r, k, n, uc, uf, ud } => {
+                self.compiled.insert(*k, Info { r: *r, n: *n, uc: *uc, uf: *uf, ud: *ud, value: value_of(*r, *k, *n, *uc, *uf, *ud) });
                 self.pkgs.push(*k);
             }
-            Op::Get(k) => self.hs.push(*k),
-            Op::CloneH(i) => self.hs.push(self.hs[*i]),
+            Op::Get(k) => {
+                self.hs.push(*k);
+                self.kind.push(0);
+            }
+            Op::GetTest(k) => {
+                self.hs.push(*k);
+                self.kind.push(2);
+            }
+            Op::CloneH(i) => {
+                self.hs.push(self.hs[*i]);
+                self.kind.push(0);
+            }
+            Op::IntoFunc(i) => self.kind[*i] = 1,
             Op::Call(_) => {}
             Op::DropH(i, _) => {
                 self.hs.remove(*i);
+                self.kind.remove(*i);
             }
             Op::DropP(k, _) => {
                 let i = self.pkgs.iter().position(|x| x == k).unwrap();
@@ -261,7 +339,8 @@ impl Spec {
             out.push((tag_f(*r), format!("F{r}"), needed as i64, may as i64));
         }
         for (k, i) in &self.compiled {
-            for c in 0..i.n {
+            // with `ud`, constant #n is the tracked element of the List-typed script constant
+            for c in 0..i.n + i.ud as u32 {
                 let a = self.referred(*k) as i64;
                 out.push((tag_s(*k, c), format!("S{k}.{c}"), a, a));
             }
@@ -273,6 +352,25 @@ impl Spec {
 // ---------------------------------------------------------------- the real thing
 
 type Handle = TypedFunc<NoCtx, fn() -> u32>;
+type HandleCx = TypedFunc<Ctx<Cx>, fn() -> u32>;
+
+/// Runtimes with an odd id are built with a context type: their packages,
+/// handles and `into_func` closures are the `Ctx<C>` instantiations of the API
+/// (the scripts do not read the context).
+#[derive(Clone, Context)]
+struct Cx {
+    pub cxn: u32,
+}
+fn is_cx(r: u32) -> bool { r % 2 == 1 }
+
+enum Rt {
+    No(Runtime<NoCtx>),
+    Cx(Runtime<Ctx<Cx>>),
+}
+enum Pkg {
+    No(Package<NoCtx>),
+    Cx(Package<Ctx<Cx>>),
+}
 
 struct SendIt<T>(T);
 // SAFETY: used only to move a value to a thread that drops it while the
@@ -293,21 +391,65 @@ fn drop_maybe_on_thread<T: 'static>(x: T, thread: bool) {
     }
 }
 
-#[derive(Default)]
-struct World {
-    rts: BTreeMap<u32, Runtime<NoCtx>>,
-    pkgs: Vec<(u32, Package<NoCtx>)>,
-    hs: Vec<(u32, Handle)>,
+/// a handle, or the closure `into_func` made of it
+enum H {
+    Handle(Handle),
+    Func(Box<dyn Fn() -> u32>),
+    HandleCx(HandleCx),
+    FuncCx(Box<dyn Fn(&mut Cx) -> u32>),
+    /// a `TestCase` (plain or context runtime): runs the script's test, which compares `main()` with
+    /// the value it had at compile time; yields that value when the test accepts, 0 when it rejects
+    Test(Box<dyn Fn() -> u32>),
+    /// transient (while `into_func` consumes the handle)
+    Gone,
+}
+impl H {
+    fn call(&self) -> u32 {
+        match self {
+            H::Handle(h) => h.call(),
+            H::Func(f) => f(),
+            H::HandleCx(h) => h.call(&mut Cx { cxn: 5 }),
+            H::FuncCx(f) => f(&mut Cx { cxn: 5 }),
+            H::Test(f) => f(),
+            H::Gone => unreachable!(),
+        }
+    }
 }
 
-fn script(k: u32, n: u32, uc: bool, uf: bool) -> String {
+#[derive(Default)]
+struct World {
+    rts: BTreeMap<u32, Rt>,
+    pkgs: Vec<(u32, Pkg)>,
+    hs: Vec<(u32, H)>,
+}
+
+fn roto_list(l: &[u32]) -> String {
+    format!("[{}]", l.iter().map(|x| x.to_string()).collect::<Vec<_>>().join(", "))
+}
+
+fn script(r: u32, k: u32, n: u32, uc: bool, uf: bool, ud: bool) -> String {
+    let value = value_of(r, k, n, uc, uf, ud);
     let mut s = String::new();
     for c in 0..n {
         s.push_str(&format!("const SC{c}: Tk = mk({}, {});\n", tag_s(k, c), val_s(k, c)));
     }
+    if ud {
+        // script constants of List and String type (the List one holds a tracked element)
+        s.push_str(&format!("const SLT: List[Tk] = [mk({}, {})];\n", tag_s(k, n), val_s(k, n)));
+        s.push_str(&format!("const SL: List[u32] = {};\n", roto_list(&list_const(k))));
+        s.push_str(&format!("const SS: String = \"{}\" + \"{}\";\n", lit_const_a(k), lit_const_b()));
+    }
     s.push_str(&format!("fn main() -> u32 {{\n    {}", 1000 * k));
     for c in 0..n {
         s.push_str(&format!(" + val(SC{c})"));
+    }
+    if ud {
+        s.push_str(&format!("\n    + ssum(\"{}\") + ssum(\"{}\") + ssum(SS)", lit_plain(k), lit_short(k)));
+        s.push_str(&format!("\n    + ssum(f\"{}{{SS}}{}\")", lit_f_a(k), lit_f_b()));
+        s.push_str(&format!("\n    + lsum({}) + lsum(SL)", roto_list(&list_lit(k))));
+        let [ip4, ip6] = ip_lits(k);
+        s.push_str(&format!("\n    + ipsum({ip4}) + ipsum({ip6})"));
+        s.push_str("\n    + (match SLT.get(0) { Some(t) => val(t), None => 0, })");
     }
     if uc {
         s.push_str(" + val(REGC)");
@@ -316,6 +458,7 @@ fn script(k: u32, n: u32, uc: bool, uf: bool) -> String {
         s.push_str(" + getclos()");
     }
     s.push_str("\n}\n");
+    s.push_str(&format!("test selfcheck {{\n    if main() != {} {{\n        reject;\n    }}\n    accept\n}}\n", value));
     s
 }
 
@@ -327,40 +470,85 @@ impl World {
                     #[clone] type Tk = Val<Tk>;
                     fn mk(tag: u64, v: u32) -> Val<Tk> { Val(Tk::new(tag, v)) }
                     fn val(t: Val<Tk>) -> u32 { t.0.val }
+                    fn ssum(s: RotoString) -> u32 { ssum_of(&s) }
+                    fn lsum(l: List<u32>) -> u32 { lsum_of(&l.to_vec()) }
+                    fn ipsum(a: IpAddr) -> u32 { ipsum_of(&a) }
                 })
                 .map_err(|e| format!("{e}"))?;
+                let rt = if is_cx(*r) { Rt::Cx(rt.with_context_type::<Cx>()?) } else { Rt::No(rt) };
                 self.rts.insert(*r, rt);
             }
             Op::RegConst(r) => {
                 let c = roto::Constant::new("REGC", "tracked constant", Val(Tk::new(tag_r(*r), val_r(*r))), roto::location!())
                     .map_err(|e| format!("{e}"))?;
-                self.rts.get_mut(r).unwrap().add(c).map_err(|e| format!("{e}"))?;
+                match self.rts.get_mut(r).unwrap() {
+                    Rt::No(rt) => rt.add(c).map_err(|e| format!("{e}"))?,
+                    Rt::Cx(rt) => rt.add(c).map_err(|e| format!("{e}"))?,
+                }
             }
             Op::RegClos(r) => {
                 let cap = Tk::new(tag_f(*r), val_f(*r));
-                self.rts
-                    .get_mut(r)
-                    .unwrap()
-                    .add(library! {
-                        let getclos = move || -> u32 { let c = &cap; c.val };
-                    })
-                    .map_err(|e| format!("{e}"))?;
+                let lib = library! {
+                    let getclos = move || -> u32 { let c = &cap; c.val };
+                };
+                match self.rts.get_mut(r).unwrap() {
+                    Rt::No(rt) => rt.add(lib).map_err(|e| format!("{e}"))?,
+                    Rt::Cx(rt) => rt.add(lib).map_err(|e| format!("{e}"))?,
+                }
             }
-            Op::Compile { r, k, n, uc, uf } => {
-                let src = script(*k, *n, *uc, *uf);
-                let pkg = FileTree::test_file(&format!("v{k}.roto"), &src, 0)
-                    .compile(&self.rts[r])
-                    .map_err(|e| format!("compile v{k}: {e}"))?;
+            Op::Compile { r, k, n, uc, uf, ud } => {
+                let src = script(*r, *k, *n, *uc, *uf, *ud);
+                let tree = FileTree::test_file(&format!("v{k}.roto"), &src, 0);
+                let pkg = match &self.rts[r] {
+                    Rt::No(rt) => Pkg::No(tree.compile(rt).map_err(|e| format!("compile v{k}: {e}"))?),
+                    Rt::Cx(rt) => Pkg::Cx(tree.compile(rt).map_err(|e| format!("compile v{k}: {e}"))?),
+                };
                 self.pkgs.push((*k, pkg));
             }
             Op::Get(k) => {
                 let p = self.pkgs.iter_mut().find(|(x, _)| x == k).unwrap();
-                let f: Handle = p.1.get_function("main").map_err(|e| format!("{e}"))?;
-                self.hs.push((*k, f));
+                let h = match &mut p.1 {
+                    Pkg::No(p) => H::Handle(p.get_function("main").map_err(|e| format!("{e}"))?),
+                    Pkg::Cx(p) => H::HandleCx(p.get_function("main").map_err(|e| format!("{e}"))?),
+                };
+                self.hs.push((*k, h));
+            }
+            Op::GetTest(k) => {
+                let p = self.pkgs.iter_mut().find(|(x, _)| x == k).unwrap();
+                let h = match &mut p.1 {
+                    Pkg::No(p) => {
+                        let mut tests: Vec<_> = p.get_tests().collect();
+                        if tests.len() != 1 {
+                            return Err(format!("get_tests: {} tests", tests.len()));
+                        }
+                        let tc = tests.pop().unwrap();
+                        H::Test(Box::new(move || tc.run(&mut NoCtx).is_ok() as u32))
+                    }
+                    Pkg::Cx(p) => {
+                        let mut tests: Vec<_> = p.get_tests().collect();
+                        if tests.len() != 1 {
+                            return Err(format!("get_tests: {} tests", tests.len()));
+                        }
+                        let tc = tests.pop().unwrap();
+                        H::Test(Box::new(move || tc.run(&mut Cx { cxn: 5 }).is_ok() as u32))
+                    }
+                };
+                self.hs.push((*k, h));
             }
             Op::CloneH(i) => {
-                let h = (self.hs[*i].0, self.hs[*i].1.clone());
-                self.hs.push(h);
+                let h = match &self.hs[*i].1 {
+                    H::Handle(h) => H::Handle(h.clone()),
+                    H::HandleCx(h) => H::HandleCx(h.clone()),
+                    _ => return Err("clone of a closure".into()),
+                };
+                self.hs.push((self.hs[*i].0, h));
+            }
+            Op::IntoFunc(i) => {
+                self.hs[*i].1 = match std::mem::replace(&mut self.hs[*i].1, H::Gone) {
+                    H::Handle(h) => H::Func(Box::new(h.into_func())),
+                    H::HandleCx(h) => H::FuncCx(Box::new(h.into_func())),
+                    _ => return Err("into_func of a closure".into()),
+                };
             }
             Op::Call(i) => {
                 let _ = self.hs[*i].1.call();
@@ -381,6 +569,26 @@ impl World {
         }
         Ok(())
     }
+}
+
+// ---------------------------------------------------------------- scribbling over freed memory
+
+/// Allocate and free blocks of every small size class, filled with a byte
+/// pattern: whatever the last step freed (string bytes, constants, boxed
+/// closures) is reused and overwritten, so a read through a dangling pointer
+/// sees other bytes — deterministically, not only under valgrind.
+fn scribble(round: usize) {
+    let fill = 0xA5u8 ^ (round as u8).wrapping_mul(29);
+    let mut keep: Vec<Vec<u8>> = Vec::with_capacity(1024);
+    for size in (1..=30).map(|i| i * 8).chain([256, 320, 384, 448, 512, 768, 1024]) {
+        for _ in 0..12 {
+            let mut v = Vec::<u8>::with_capacity(size);
+            v.resize(size, fill);
+            keep.push(v);
+        }
+    }
+    std::hint::black_box(&keep);
+    drop(keep);
 }
 
 // ---------------------------------------------------------------- one history
@@ -431,20 +639,9 @@ fn run_history(h: &[Op], drv: Option<&mut Driver>, progress: bool) -> Outcome {
             }
             spec.apply(op);
         }
-        // ---- observe the real state
-        let mut calls = vec![];
-        for (i, (k, f)) in w.hs.iter().enumerate() {
-            let got = f.call();
-            let want = spec.compiled[k].value;
-            calls.push(format!("ok:{got}"));
-            if got != want {
-                out.violations.push((
-                    format!("handle #{i} of version {k} returned {got}, it returned {want} when it was created"),
-                    format!("call-result-changed after {}", op.kind().trim_end_matches("@thread")),
-                    step,
-                ));
-            }
-        }
+        scribble(step);
+        // ---- observe the real state: first the resource counts (a release that came too early is reported
+        // as such, before a call through the dangling handle can kill the process), then the calls
         let mut live = vec![];
         for (tag, name, min, max) in spec.expected_live() {
             let n = live_of(tag);
@@ -461,6 +658,26 @@ fn run_history(h: &[Op], drv: Option<&mut Driver>, progress: bool) -> Outcome {
                     format!("not-released {} after {}", &name[..1], op.kind().trim_end_matches("@thread")),
                     step,
                 ));
+            }
+        }
+        let mut calls = vec![];
+        if out.violations.is_empty() {
+            for (i, (k, f)) in w.hs.iter().enumerate() {
+                let want = spec.compiled[k].value;
+                let i_kind = ["handle", "closure (into_func)", "test case (get_tests)"][spec.kind[i] as usize];
+                // a test case compares main() with the value it had at compile time inside the script
+                let got = match f {
+                    H::Test(_) => if f.call() == 1 { want } else { 0 },
+                    _ => f.call(),
+                };
+                calls.push(format!("ok:{got}"));
+                if got != want {
+                    out.violations.push((
+                        format!("{i_kind} #{i} of version {k} returned {got}, it returned {want} when it was created"),
+                        format!("call-result-changed after {}", op.kind().trim_end_matches("@thread")),
+                        step,
+                    ));
+                }
             }
         }
         if BAD_DROPS.load(Ordering::SeqCst) > 0 {
@@ -538,13 +755,16 @@ fn all_ops(spec: &Spec, max_rt: u32, max_k: u32, exhaustive: bool) -> Vec<Op> {
     if next_k <= max_k {
         for r in 0..max_rt {
             if exhaustive {
+                // the script uses everything there is: constant, closure and every kind of code-owned data
                 let (uc, uf) = (spec.has_const.contains(&r), spec.has_clos.contains(&r));
-                v.push(Op::Compile { r, k: next_k, n: 1, uc, uf });
+                v.push(Op::Compile { r, k: next_k, n: 1, uc, uf, ud: true });
             } else {
                 for n in 0..3 {
                     for uc in [false, true] {
                         for uf in [false, true] {
-                            v.push(Op::Compile { r, k: next_k, n, uc, uf });
+                            for ud in [false, true] {
+                                v.push(Op::Compile { r, k: next_k, n, uc, uf, ud });
+                            }
                         }
                     }
                 }
@@ -553,16 +773,28 @@ fn all_ops(spec: &Spec, max_rt: u32, max_k: u32, exhaustive: bool) -> Vec<Op> {
     }
     for k in &spec.pkgs {
         v.push(Op::Get(*k));
+        // (exhaustive enumeration: one test case per version is enough, they are all alike)
+        if !exhaustive || !spec.hs.iter().zip(&spec.kind).any(|(x, t)| x == k && *t == 2) {
+            v.push(Op::GetTest(*k));
+        }
         v.push(Op::DropP(*k, false));
     }
     let mut seen = BTreeSet::new();
     for (i, k) in spec.hs.iter().enumerate() {
         // clones of one handle are indistinguishable objects: in the exhaustive
-        // enumeration one representative per version
-        if exhaustive && !seen.insert(*k) {
+        // enumeration one representative per (version, handle / closure)
+        if exhaustive && !seen.insert((*k, spec.kind[i])) {
             continue;
         }
-        v.push(Op::CloneH(i));
+        // (exhaustive enumeration: objects of one kind and version are all alike — two plain handles,
+        // one closure and one test case per version are enough to have "other handles" of every kind)
+        let count = |kind: u8| spec.hs.iter().zip(&spec.kind).filter(|(x, t)| *x == k && **t == kind).count();
+        if !exhaustive || count(0) < 2 {
+            v.push(Op::CloneH(i));
+        }
+        if !exhaustive || count(1) < 1 {
+            v.push(Op::IntoFunc(i));
+        }
         v.push(Op::DropH(i, false));
         if !exhaustive {
             v.push(Op::Call(i));
@@ -652,6 +884,21 @@ fn gen_exhaustive(depth: usize) -> Vec<Vec<Op>> {
             if matches!(op, Op::Build(_) | Op::RegConst(_) | Op::RegClos(_)) {
                 continue;
             }
+            // adjacent creation operations commute (they only add an owner): one canonical order per
+            // run of creations (compile < get < get-test < clone < into-func); drops break the run
+            let rank = |o: &Op| match o {
+                Op::Compile { .. } => Some(0),
+                Op::Get(_) => Some(1),
+                Op::GetTest(_) => Some(2),
+                Op::CloneH(_) => Some(3),
+                Op::IntoFunc(_) => Some(4),
+                _ => None,
+            };
+            if let (Some(a), Some(b)) = (cur.last().and_then(rank), rank(&op)) {
+                if b < a {
+                    continue;
+                }
+            }
             let mut s2 = spec.clone();
             s2.apply(&op);
             cur.push(op);
@@ -665,6 +912,123 @@ fn gen_exhaustive(depth: usize) -> Vec<Vec<Op>> {
     }
     let mut cur = prefix.clone();
     go(&spec, &mut cur, depth, &mut out);
+    out
+}
+
+/// Class representatives that run first (before the enumeration): for every way an
+/// object can keep a module alive — package, handle, clone, closure made by
+/// `into_func`, test case from `get_tests` — the history in which it is the LAST owner while a script that
+/// uses every kind of referenced resource is called, with every order of
+/// dropping the others; plus hot reload (recompile on the same runtime after
+/// registering more) and two runtimes.
+fn gen_boundary() -> Vec<Vec<Op>> {
+    let full = |k: u32| Op::Compile { r: 0, k, n: 2, uc: true, uf: true, ud: true };
+    let pre = vec![Op::Build(0), Op::RegConst(0), Op::RegClos(0)];
+    let mut out: Vec<Vec<Op>> = vec![];
+    // r = 0: a plain runtime; r = 1: a runtime with a context type (the `Ctx<C>` instantiations of
+    // get_function / call / into_func)
+    for r in [0u32, 1] {
+        let full = |k: u32| Op::Compile { r, k, n: 2, uc: true, uf: true, ud: true };
+        // the survivor: 0 = plain handle, 1 = clone (original dropped), 2 = closure, 3 = closure of a clone,
+        // 4 = test case
+        for survivor in 0..5 {
+            for order in 0..3 {
+                for thread in [false, true] {
+                    if r == 1 && thread {
+                        continue;
+                    }
+                    let mut h = vec![Op::Build(r), Op::RegConst(r), Op::RegClos(r)];
+                    h.push(full(1));
+                    h.push(if survivor == 4 { Op::GetTest(1) } else { Op::Get(1) });
+                    match survivor {
+                        0 | 4 => {}
+                        1 => {
+                            h.push(Op::CloneH(0));
+                            h.push(Op::DropH(0, thread));
+                        }
+                        2 => h.push(Op::IntoFunc(0)),
+                        _ => {
+                            h.push(Op::CloneH(0));
+                            h.push(Op::IntoFunc(1));
+                            h.push(Op::DropH(0, thread));
+                        }
+                    }
+                    match order {
+                        0 => {
+                            h.push(Op::DropP(1, thread));
+                            h.push(Op::DropR(r, thread));
+                        }
+                        1 => {
+                            h.push(Op::DropR(r, thread));
+                            h.push(Op::DropP(1, thread));
+                        }
+                        _ => {
+                            // hot reload in between: a second version is compiled and dropped again
+                            h.push(full(2));
+                            h.push(Op::Get(2));
+                            h.push(Op::DropP(1, thread));
+                            h.push(Op::DropH(1, thread));
+                            h.push(Op::DropP(2, thread));
+                            h.push(Op::DropR(r, thread));
+                        }
+                    }
+                    h.push(Op::Call(0));
+                    h.push(Op::DropH(0, thread));
+                    out.push(h);
+                }
+            }
+        }
+    }
+    // each kind of resource on its own (so that a result names the kind), handle and closure as survivor
+    for (n, uc, uf, ud) in [(0, false, false, true), (2, false, false, false), (0, true, false, false), (0, false, true, false), (0, false, false, false)] {
+        for obj in 0..3 {
+            let mut h = pre.clone();
+            h.push(Op::Compile { r: 0, k: 1, n, uc, uf, ud });
+            h.push(if obj == 2 { Op::GetTest(1) } else { Op::Get(1) });
+            if obj == 1 {
+                h.push(Op::IntoFunc(0));
+            }
+            h.extend([Op::DropP(1, false), Op::DropR(0, false), Op::Call(0), Op::DropH(0, false)]);
+            out.push(h);
+        }
+    }
+    // registering after a compilation, then compiling again on the same runtime (hot reload with a grown runtime)
+    out.push(vec![
+        Op::Build(0),
+        Op::Compile { r: 0, k: 1, n: 1, uc: false, uf: false, ud: true },
+        Op::Get(1),
+        Op::RegConst(0),
+        Op::RegClos(0),
+        full(2),
+        Op::Get(2),
+        Op::IntoFunc(1),
+        Op::DropR(0, false),
+        Op::DropP(2, false),
+        Op::DropP(1, false),
+        Op::Call(1),
+        Op::DropH(1, false),
+        Op::DropH(0, false),
+    ]);
+    // two runtimes: dropping one never touches the other's packages
+    out.push(vec![
+        Op::Build(0),
+        Op::Build(1),
+        Op::RegConst(0),
+        Op::RegClos(0),
+        Op::RegConst(1),
+        Op::RegClos(1),
+        full(1),
+        Op::Compile { r: 1, k: 2, n: 1, uc: true, uf: true, ud: true },
+        Op::Get(1),
+        Op::Get(2),
+        Op::IntoFunc(1),
+        Op::DropR(0, false),
+        Op::DropP(1, false),
+        Op::DropP(2, true),
+        Op::DropR(1, true),
+        Op::DropH(0, false),
+        Op::DropH(0, true),
+    ]);
     out
 }
 
@@ -705,6 +1069,17 @@ fn main() {
             // crash budget: a tree on which (almost) every history dies must not
             // cost one process start per history
             let crashes = std::cell::Cell::new(0u32);
+            // class representatives first
+            let n_bnd = gen_boundary().len() as u64;
+            run_batches(&["bnd"], n_bnd, n_bnd, t, &mut rep, |rep: &mut Report, idx: u64, how: &Ended| {
+                crashes.set(crashes.get() + 1);
+                let h = &gen_boundary()[idx as usize];
+                rep.violation(
+                    "the process died (use-after-free / double free) while running this history (and then dropping what it left alive)",
+                    &format!("crash {}", crash_key(h)),
+                    json!({"history": hist_text(h), "ended": format!("{how:?}"), "origin": {"boundary": idx}}),
+                );
+            });
             let mut off = 0u64;
             while off < n_exh && crashes.get() < 6 {
                 let chunk = 400.min(n_exh - off);
@@ -739,12 +1114,23 @@ fn main() {
             if crashes.get() >= 6 {
                 rep.notes.push(format!("run cut short after {} crashed histories", crashes.get()));
             }
-            rep.notes.push(format!("exhaustive: all {n_exh} histories (runtime with constant+closure) ++ suffix of ≤ {depth} ops ending in a drop; random: {n_rand} histories"));
+            rep.notes.push(format!("boundary: {n_bnd} class representatives (last owner = handle / clone / into_func closure / test case × drop orders × thread × plain / context runtime) run first; exhaustive: all {n_exh} histories (runtime with constant+closure) ++ suffix of ≤ {depth} ops ending in a drop; random: {n_rand} histories"));
             if thorough {
                 valgrind_subset(&mut rep, seed);
             }
         }
         Some("worker") => match args[2].as_str() {
+            "bnd" => {
+                let from: usize = args[3].parse().unwrap();
+                let n: usize = args[4].parse().unwrap();
+                let all = gen_boundary();
+                let mut drv = Driver::spawn().expect("lean driver");
+                for idx in from..(from + n).min(all.len()) {
+                    println!("START {idx}");
+                    let o = run_history(&all[idx], Some(&mut drv), false);
+                    record(&mut rep, &all[idx], &o, json!({"boundary": idx}), idx as u64);
+                }
+            }
             "exh" => {
                 let depth: usize = args[3].parse().unwrap();
                 let off: usize = args[4].parse().unwrap();
@@ -784,20 +1170,26 @@ fn main() {
                 let o = run_history(&h, Some(&mut drv), true);
                 record(&mut rep, &h, &o, json!("replay"), 1);
             }
-            // histories without the model (run under valgrind)
+            // histories without the model (run under valgrind): the class representatives, then random ones
             "vg" => {
                 let seed: u64 = args[3].parse().unwrap();
                 let from: u64 = args[4].parse().unwrap();
                 let n: u64 = args[5].parse().unwrap();
                 for idx in from..from + n {
                     println!("START {idx}");
-                    let h = gen_random(&mut Prng::for_case(seed, idx));
+                    let h = vg_history(seed, idx);
                     let o = run_history(&h, None, false);
                     record(&mut rep, &h, &o, json!({"seed": seed, "index": idx, "valgrind": true}), idx);
                 }
             }
             _ => std::process::exit(64),
         },
+        Some("count") => {
+            for d in 4..=8 {
+                println!("depth {d}: {}", gen_exhaustive(d).len());
+            }
+            return;
+        }
         Some("replay") => {
             let v: serde_json::Value = serde_json::from_str(&args[2]).expect("replay json");
             let hs = v["history"].as_str().expect("history").to_string();
@@ -837,14 +1229,23 @@ fn crash_key(h: &[Op]) -> String {
         .collect();
     k.sort();
     k.dedup();
+    if h.iter().any(|o| matches!(o, Op::IntoFunc(_))) {
+        k.insert(0, "into-func");
+    }
     format!("in a history with {}", k.join(","))
 }
 
-/// Supporting evidence (thorough): a subset of the random histories under
+/// history number `idx` of the valgrind run: the boundary class representatives first, then random ones
+fn vg_history(seed: u64, idx: u64) -> Vec<Op> {
+    let b = gen_boundary();
+    if (idx as usize) < b.len() { b[idx as usize].clone() } else { gen_random(&mut Prng::for_case(seed, idx)) }
+}
+
+/// Supporting evidence (thorough): the class representatives and a subset of the random histories under
 /// valgrind memcheck — does freed JIT memory / a freed constant get touched?
 fn valgrind_subset(rep: &mut Report, seed: u64) {
     let exe = std::env::current_exe().unwrap();
-    let n = 40;
+    let n = gen_boundary().len() as u64 + 40;
     let out = std::process::Command::new("valgrind")
         .args(["--error-exitcode=99", "-q", "--smc-check=all"])
         .arg(&exe)
@@ -861,13 +1262,13 @@ fn valgrind_subset(rep: &mut Report, seed: u64) {
                     let mut sub = Report::default();
                     sub.merge_json(&r);
                     rep.impl_violations.extend(sub.impl_violations);
-                    rep.notes.push(format!("valgrind memcheck: {ev} random histories, no invalid read/write/free reported"));
+                    rep.notes.push(format!("valgrind memcheck: {ev} histories (class representatives + random), no invalid read/write/free reported"));
                     rep.hist("valgrind", "histories-clean");
                 }
             } else if code == Some(99) {
                 let first: String = stderr.lines().take(12).collect::<Vec<_>>().join(" / ");
                 let last = stdout.lines().rev().find_map(|l| l.strip_prefix("START ")).and_then(|s| s.parse::<u64>().ok()).unwrap_or(0);
-                let h = gen_random(&mut Prng::for_case(seed, last));
+                let h = vg_history(seed, last);
                 rep.violation(
                     "valgrind memcheck reported an invalid memory access while running random histories",
                     "valgrind memcheck error",
